@@ -1,11 +1,16 @@
 import InTotoModel.Lemmas.JsonCanon
+import InTotoModel.Lemmas.JsonText
 /-
   C10 — Canonical JSON is deterministic, order-insensitive, loss-free and integer-only.
 
   Model: `InToto.Json.canon` (= `Json::canonicalize`, src/interchange/cjson/mod.rs) over `JV`
   (= `serde_json::Value`).  `parseJ` is the strict JSON reader of Model/JsonParse.lean.
-  What is *not* in these theorems: serde_json's own text parser ("whitespace or escape spelling of
-  the source text") — that part is checked differentially by the harness (oracle `spellings`).
+  "Whitespace or escape spelling of the source text": `Model/JsonText.lean` is a model of
+  serde_json's text reader (lexer + token parser; tied to `serde_json::from_str` by the `readtext`
+  correspondence on spelled, edited and numeral texts); the theorems at the end of this file say
+  that every spelling of a value - white space anywhere between tokens, every string character raw
+  or in any of its escape forms, members in any order - is read as that value and canonicalizes to
+  the same bytes.
 -/
 namespace InToto.Json
 
@@ -225,5 +230,38 @@ example : Equiv (.obj [(['b'], .bool true), (['a'], .null)]) (.obj [(['a'], .nul
   .objPerm (List.Perm.swap _ _ _) (by decide)
 example : JV.num .nonInt ∈ subvalues (.arr [.obj [(['x'], .num .nonInt)]]) := by
   simp [subvalues, subvaluesList, subvaluesKvs]
+
+/-! ### the source text -/
+
+open InToto.JsonText in
+/-- Every text that spells `v` (any white space between tokens, any escape form for any character)
+    is read as `v`. -/
+theorem c10_every_spelling_reads_as_the_value {v : JV} {t : Str} (h : TextSp v t) (hd : depth v ≤ 127) :
+    readText t = some v := readText_spelled h hd
+
+open InToto.JsonText in
+/-- The canonical encoding does not depend on member order, whitespace or escape spelling of the
+    source text: two texts that spell values equal up to member order canonicalize alike. -/
+theorem c10_source_text_spelling_is_irrelevant {v v' : JV} {t t' : Str}
+    (h : TextSp v t) (h' : TextSp v' t') (hd : depth v ≤ 127) (hd' : depth v' ≤ 127) (he : Equiv v v') :
+    (readText t).map canon = (readText t').map canon := by
+  rw [readText_spelled h hd, readText_spelled h' hd', Option.map_some, Option.map_some,
+    c10_order_insensitive he]
+
+/- Non-vacuity: `[ 1 ,"\u00e9\n\ud83d\uDE00"]` and a compact spelling with raw characters spell the
+   same value, and the reader evaluates both to it (kernel-checked). -/
+open InToto.JsonText in
+example : readText " [ 1 ,\"\\u00e9\\n\\ud83d\\uDE00\"]\n".toList
+    = some (.arr [.num (.int 1), .str ['é', '\n', '😀']]) := by rfl
+open InToto.JsonText in
+example : readText "[1,\"é\\u000a😀\"]".toList = some (.arr [.num (.int 1), .str ['é', '\n', '😀']]) := by rfl
+open InToto.JsonText in
+example : TextSp (.arr [.num (.int 1)]) " [ 1 ]".toList := by
+  refine ⟨[' '], ['[', ' ', '1', ' ', ']'], [], by simp [Ws, isWs], ?_, by simp [Ws], rfl⟩
+  simp only [ValSp]
+  refine ⟨[' '], ['1'], [' '], [']'], by simp [Ws, isWs], ?_, by simp [Ws, isWs], by simp [TailSp], rfl⟩
+  refine ⟨⟨by decide, by decide⟩, ?_⟩
+  show ['1'] = natDec 1
+  rw [natDec_lt10 (by decide)]; rfl
 
 end InToto.Json
